@@ -300,6 +300,70 @@ class Sim(Layout):
                 r = self.hooks["*callable"](self, v, args, kwargs, n)
                 if r is not NotImplemented:
                     return r
+        # functional builtins: reduce / chain / islice+count / next / any / all (generators are evaluated eagerly: the simulated code is
+        # free of side effects in its generator bodies, or the scenario's hooks record them in order anyway)
+        fname = ast.unparse(f).split(".")[-1] if isinstance(f, (ast.Name, ast.Attribute)) else None
+        if fname == "reduce" and len(n.args) in (2, 3) and "reduce" not in env:
+            fn = n.args[0]
+            seq = self.ev(n.args[1], env, fi)
+            seq = list(seq) if isinstance(seq, (list, tuple, range)) else self.iterable(seq, n)
+            opname = ast.unparse(fn).split(".")[-1] if isinstance(fn, (ast.Name, ast.Attribute)) else None
+            ops = {"add": ast.Add(), "mul": ast.Mult(), "sub": ast.Sub()}
+            fv = None if opname in ops else self.ev(fn, env, fi)
+            if len(n.args) == 3:
+                acc = self.ev(n.args[2], env, fi)
+            elif seq:
+                acc, seq = seq[0], seq[1:]
+            else:
+                raise LayoutUnknown("reduce of an empty sequence")
+            for x in seq:
+                if opname in ops:
+                    acc = self.binop(ops[opname], acc, x)
+                elif isinstance(fv, Closure):
+                    acc = self.call_closure(fv, [acc, x], {})
+                else:
+                    raise LayoutUnknown("reduce with %s" % ast.unparse(fn))
+            return acc
+        if fname == "chain" and "chain" not in env and isinstance(f, (ast.Name, ast.Attribute)) and ast.unparse(f) in ("chain", "itertools.chain"):
+            out = []
+            for a in n.args:
+                v = self.ev(a, env, fi)
+                out.extend(list(v) if isinstance(v, (list, tuple, range)) else self.iterable(v, n))
+            return out
+        if fname == "from_iterable" and isinstance(f, ast.Attribute) and ast.unparse(f.value).split(".")[-1] == "chain" and len(n.args) == 1:
+            out = []
+            v = self.ev(n.args[0], env, fi)
+            for x in (list(v) if isinstance(v, (list, tuple, range)) else self.iterable(v, n)):
+                out.extend(list(x) if isinstance(x, (list, tuple, range)) else self.iterable(x, n))
+            return out
+        if fname == "count" and isinstance(f, (ast.Name, ast.Attribute)) and ast.unparse(f) in ("count", "itertools.count") and len(n.args) <= 1 and "count" not in env:
+            start = self.ev(n.args[0], env, fi) if n.args else 0
+            if isinstance(start, int):
+                return Obj("itertools.count", {"pos": start})
+        if fname == "islice" and len(n.args) == 2:
+            it = self.ev(n.args[0], env, fi)
+            k = self.ev(n.args[1], env, fi)
+            if isinstance(it, Obj) and it.name == "itertools.count" and isinstance(k, int):
+                out = list(range(it.attrs["pos"], it.attrs["pos"] + k))
+                it.attrs["pos"] += k
+                return out
+            if isinstance(it, (list, tuple)) and isinstance(k, int):
+                return list(it)[:k]
+        if isinstance(f, ast.Name) and f.id == "next" and len(n.args) in (1, 2) and "next" not in env:
+            it = self.ev(n.args[0], env, fi)
+            if isinstance(it, Obj) and it.name == "itertools.count":
+                it.attrs["pos"] += 1
+                return it.attrs["pos"] - 1
+            if isinstance(it, (list, tuple)):
+                if it:
+                    return it[0]
+                if len(n.args) == 2:
+                    return self.ev(n.args[1], env, fi)
+                raise LayoutUnknown("next() of an exhausted iterator")
+        if isinstance(f, ast.Name) and f.id in ("any", "all") and len(n.args) == 1 and f.id not in env:
+            v = self.ev(n.args[0], env, fi)
+            if isinstance(v, (list, tuple)) and all(isinstance(x, (bool, int)) and not isinstance(x, (Sym, Obj)) for x in v):
+                return any(v) if f.id == "any" else all(v)
         # builtins the layout interpreter has no use for
         if isinstance(f, ast.Name) and f.id == "sum" and len(n.args) == 1:
             v = self.ev(n.args[0], env, fi)
@@ -332,6 +396,9 @@ class Sim(Layout):
             v = self.ev(n.args[0], env, fi)
             if isinstance(v, dict):
                 return list(v.keys())
+            if isinstance(v, (list, tuple, range)):
+                return list(v)      # (no second evaluation of the argument: it may advance an iterator)
+            return self.iterable(v, n)
         if isinstance(f, ast.Attribute) and f.attr in ("pop", "get", "setdefault"):
             o = self.ev(f.value, env, fi)
             if isinstance(o, dict):
